@@ -350,6 +350,16 @@ def run(ctx):
         if w % 50 == 0:
             drv.probes(factory, path, real, model)
     res.count("invariant_evals", INV_STATE["evals"])
+    if not ctx.quick and ctx.shard == 0:
+        from .. import suite
+        data, tail = suite.run_suite()
+        if data is None:
+            res.inconclusive_because("repository test-suite under contracts did not finish: " + str(tail)[-200:])
+        else:
+            res.count("suite_tests", data["tests"])
+            res.count("suite_invariant_evals", data["invariant_evals"])
+            for x in data["dict_invariant"]:
+                res.violation("under-repo-tests:class-invariant(icontract)", {"factory": None, "path": [], "test": x["test"]}, x["keys"], None)
 
 
 def replay(ctx, v):
